@@ -32,6 +32,8 @@ def nontrivial(request, impl):
         return "0a" in parts[2] or "0d" in parts[2]
     if proto == "num":
         return parts[1].startswith("2e")
+    if proto == "callform":
+        return parts[3] in ("P1s", "P1t", "S", "T")
     if proto == "trivia":
         # non-trivial: at least one comment token
         return any(x[0] in "LBS" for x in parts[2].split(";"))
@@ -198,4 +200,18 @@ PROPS["C10"] = {
     "rule": TRIVIA_RULE + PIPE_RULE + SLOT_RULE,
     "trusted_base": [],
     "assumptions": ["indentation clause: block-comment interiors are literal text"],
+}
+
+PROPS["C11"] = {
+    "lean_modules": ["StyluaModel.Props.C11"],
+    "theorem_prefix": "C11_",
+    "required_theorems": ["C11_force", "C11_auto", "C11_call_always", "C11_call_input", "C11_call_omit", "C11_call_other", "C11_space"],
+    "hx": [["c11"], ["pipe"], ["slots"]],
+    "level": "proof",
+    "level_text": "Proof of the decision logic stated outright: forced quotes; preferred quote unless the other needs strictly fewer escapes (for bodies of any length); the call-parentheses table for all five modes, every written form and both next-suffix cases; the spacing table. That the options are consulted on every layout path is carried by the exhaustive `callform`/`fnspace`/`strlit` correspondence (two widths) and by the option-rule oracle applied to every output of the closed corpus and slot sets under every option value.",
+    "level_note": "Trusted: Lean kernel; Model/CallArgs.lean and Model/StrLit.lean tied by correspondence (6 240 call-form cases, 781 bodies x 4 styles); the oracle walks re-parsed output with full_moon's Visitor; files with ignore directives are excluded from the oracle; a `(` after generic parameters is exempt from the spacing rule (the decision sits before `<`).",
+    "technique": "Lean 4 decision tables + exhaustive correspondence + option-rule oracle on closed sets",
+    "rule": "ring 2: 5 modes x 16 written call forms (single string / table / other / several / no arguments, short, over-width, multi-line, long-bracket) x 5 next suffixes x 3 prefixes x 3 statement positions x 2 widths; 4 spacing modes x 7 sites; 781 string bodies over {',\",\\,a,n} up to length 4 x 2 input quotes x 4 styles. distinct_nontrivial = call-form requests about a single string/table argument or sugar form + string bodies with quotes/backslashes. " + PIPE_RULE + SLOT_RULE,
+    "trusted_base": [],
+    "assumptions": [],
 }
